@@ -248,6 +248,12 @@ func init() {
 			var wrap struct {
 				Case *c06Case `json:"case"`
 			}
+			var fam struct {
+				Family string `json:"family"`
+			}
+			if json.Unmarshal(b, &fam) == nil && (fam.Family == "finish-window" || fam.Family == "register-probe") {
+				return c06ExtraCases(e)
+			}
 			if err := json.Unmarshal(b, &wrap); err != nil || wrap.Case == nil {
 				return fmt.Errorf("bad replay file")
 			}
@@ -299,6 +305,6 @@ func init() {
 				return err
 			}
 		}
-		return nil
+		return c06ExtraCases(e)
 	})
 }
